@@ -1,23 +1,26 @@
 ----------------------------- MODULE Coalescer -----------------------------
 (* internal/remoteclient/coalescer.go — the per-destination send coalescer behind    *)
 (* RemoteTell (C27), one action per atomic step between verifhook points:            *)
-(*   callers   Call(p)        RemoteTell up to submit's first select                 *)
+(*   callers   Call(p)        RemoteTell up to submit                                *)
+(*             SEnter(p)      inflight.RLock()        (released when submit returns) *)
 (*             SCheck(p,br)   select { <-done: return closed ; default }             *)
 (*             SFast(p,br)    select { in <- msg: return nil ; default }             *)
 (*             SSlow(p,br)    select { in <- msg | <-ctx.Done() | <-done }  (blocks) *)
 (*             Cancel(p)      the caller's context is cancelled while it is blocked  *)
-(*   writer    WSelect(br)    select { <-done | m := <-in }                 (blocks) *)
+(*   writer    WSelect(br)    select { <-stop | m := <-in }                 (blocks) *)
 (*             WDrain(br)     drainReady: one non-blocking receive, at most B        *)
 (*             WFlush(ok)     SendProto of the batch; failure -> error handler       *)
 (*             (return / wg.Done happens with the step that decides to leave)        *)
 (*   closer    XClose         closeOnce: close(done)                                 *)
+(*             XStop          inflight.Lock(); close(stop); Unlock()        (blocks) *)
 (*             XWait          wg.Wait() returns                                      *)
 (* A Go select with several ready cases picks any of them: the branch is a parameter *)
 (* of the action.  Channel `in` has capacity 4*B as in newCoalescer.                 *)
 (* Deviations of the code from the repaired design are branches named in Defects:    *)
 (*   "SingleDrain"  on close the writer drains ONE batch (<= B) and exits            *)
-(*   "LateSubmit"   submit's sends are not atomic with its done check: a message is  *)
-(*                  enqueued (and accepted) after done was closed                    *)
+(*   "LateSubmit"   close does not wait for submits in flight (no inflight lock, the *)
+(*                  writer stops on done): a submit that passed its done check       *)
+(*                  enqueues its message after the writer's final drain              *)
 EXTENDS Integers, Sequences, FiniteSets, TLC
 
 CONSTANTS Callers,    \* set of caller names (strings)
@@ -33,7 +36,9 @@ Id(p, i) == RankOf[p] * 1000 + i       \* stream (caller) = id \div 1000
 
 VARIABLES ch,         \* Seq(id): channel `in`
           done,       \* BOOLEAN: channel `done` closed
-          pc,         \* [Callers -> {"idle","check","fast","slow","finished"}]
+          stop,       \* BOOLEAN: channel `stop` closed
+          readers,    \* callers holding the inflight lock in shared mode
+          pc,         \* [Callers -> {"idle","enter","check","fast","slow","finished"}]
           k,          \* [Callers -> 1..NMsgs+1] index of the caller's current / next message
           cancelled,  \* [Callers -> BOOLEAN] ctx of the current call is cancelled
           ncancel,    \* cancellations so far
@@ -45,11 +50,11 @@ VARIABLES ch,         \* Seq(id): channel `in`
           delivered,  \* Seq(id): messages of successfully flushed batches, in order
           dead,       \* Seq(id): messages handed to the error handler
           nfail,      \* failing flushes so far
-          xpc         \* closer: "idle" | "wait" | "closed"
+          xpc         \* closer: "idle" | "lock" | "wait" | "closed"
 
-vars == <<ch, done, pc, k, cancelled, ncancel, accepted, rejected, wpc, batch, closing, delivered, dead, nfail, xpc>>
+vars == <<ch, done, stop, readers, pc, k, cancelled, ncancel, accepted, rejected, wpc, batch, closing, delivered, dead, nfail, xpc>>
 
-Init == /\ ch = <<>> /\ done = FALSE
+Init == /\ ch = <<>> /\ done = FALSE /\ stop = FALSE /\ readers = {}
         /\ pc = [p \in Callers |-> "idle"] /\ k = [p \in Callers |-> 1]
         /\ cancelled = [p \in Callers |-> FALSE] /\ ncancel = 0
         /\ accepted = {} /\ rejected = {}
@@ -61,46 +66,49 @@ Init == /\ ch = <<>> /\ done = FALSE
 Return(p) == /\ pc' = [pc EXCEPT ![p] = IF k[p] = NMsgs THEN "finished" ELSE "idle"]
              /\ k' = [k EXCEPT ![p] = @ + 1]
              /\ cancelled' = [cancelled EXCEPT ![p] = FALSE]
+             /\ readers' = readers \ {p}                      \* deferred RUnlock
 Accept(p) == /\ ch' = Append(ch, Id(p, k[p]))
              /\ accepted' = accepted \cup {Id(p, k[p])}
              /\ Return(p) /\ UNCHANGED rejected
 Reject(p) == /\ rejected' = rejected \cup {Id(p, k[p])}
              /\ Return(p) /\ UNCHANGED <<ch, accepted>>
-\* repaired design: no send once done is closed (check and send are one atomic step)
-SendOpen == ~done \/ "LateSubmit" \in Defects
 Writer == <<wpc, batch, closing, delivered, dead, nfail>>
 
 \* a call that starts after Close has returned is outside the contract ("after calling Close, the client should
 \* not be used for new requests": the client would silently build a new coalescer); calls racing with Close are in
 Call(p) == /\ pc[p] = "idle" /\ k[p] <= NMsgs /\ xpc # "closed"
-           /\ pc' = [pc EXCEPT ![p] = "check"]
-           /\ UNCHANGED <<ch, done, k, cancelled, ncancel, accepted, rejected, Writer, xpc>>
+           /\ pc' = [pc EXCEPT ![p] = "enter"]
+           /\ UNCHANGED <<ch, done, stop, readers, k, cancelled, ncancel, accepted, rejected, Writer, xpc>>
+
+\* RLock never waits here: the closer asks for the exclusive lock and gets it in one step (XStop)
+SEnter(p) == /\ pc[p] = "enter"
+             /\ pc' = [pc EXCEPT ![p] = "check"] /\ readers' = readers \cup {p}
+             /\ UNCHANGED <<ch, done, stop, k, cancelled, ncancel, accepted, rejected, Writer, xpc>>
 
 SCheck(p, br) ==
   /\ pc[p] = "check"
   /\ \/ br = "closed" /\ done /\ Reject(p)
      \/ br = "next" /\ ~done /\ pc' = [pc EXCEPT ![p] = "fast"]
-        /\ UNCHANGED <<ch, k, cancelled, accepted, rejected>>
-  /\ UNCHANGED <<done, ncancel, Writer, xpc>>
+        /\ UNCHANGED <<ch, k, cancelled, accepted, rejected, readers>>
+  /\ UNCHANGED <<done, stop, ncancel, Writer, xpc>>
 
 SFast(p, br) ==
   /\ pc[p] = "fast"
-  /\ \/ br = "send" /\ Len(ch) < Cap /\ SendOpen /\ Accept(p)
-     \/ br = "closed" /\ ~SendOpen /\ Reject(p)
-     \/ br = "next" /\ Len(ch) >= Cap /\ SendOpen /\ pc' = [pc EXCEPT ![p] = "slow"]
-        /\ UNCHANGED <<ch, k, cancelled, accepted, rejected>>
-  /\ UNCHANGED <<done, ncancel, Writer, xpc>>
+  /\ \/ br = "send" /\ Len(ch) < Cap /\ Accept(p)
+     \/ br = "next" /\ Len(ch) >= Cap /\ pc' = [pc EXCEPT ![p] = "slow"]
+        /\ UNCHANGED <<ch, k, cancelled, accepted, rejected, readers>>
+  /\ UNCHANGED <<done, stop, ncancel, Writer, xpc>>
 
 SSlow(p, br) ==
   /\ pc[p] = "slow"
-  /\ \/ br = "send" /\ Len(ch) < Cap /\ SendOpen /\ Accept(p)
+  /\ \/ br = "send" /\ Len(ch) < Cap /\ Accept(p)
      \/ br = "ctx" /\ cancelled[p] /\ Reject(p)
      \/ br = "closed" /\ done /\ Reject(p)
-  /\ UNCHANGED <<done, ncancel, Writer, xpc>>
+  /\ UNCHANGED <<done, stop, ncancel, Writer, xpc>>
 
 Cancel(p) == /\ pc[p] = "slow" /\ ~cancelled[p] /\ ncancel < MaxCancel
              /\ cancelled' = [cancelled EXCEPT ![p] = TRUE] /\ ncancel' = ncancel + 1
-             /\ UNCHANGED <<ch, done, pc, k, accepted, rejected, Writer, xpc>>
+             /\ UNCHANGED <<ch, done, stop, readers, pc, k, accepted, rejected, Writer, xpc>>
 
 \* ---- writer goroutine ----------------------------------------------------------------
 CallerVars == <<pc, k, cancelled, ncancel, accepted, rejected>>
@@ -113,10 +121,10 @@ WSelect(br) ==
   /\ \/ /\ br = "in" /\ ch # <<>>
         /\ batch' = <<Head(ch)>> /\ ch' = Tail(ch) /\ closing' = closing
         /\ wpc' = IF B > 1 THEN "drain" ELSE "flush"
-     \/ /\ br = "done" /\ done
+     \/ /\ br = "done" /\ stop
         /\ closing' = TRUE /\ wpc' = "drain"
         /\ UNCHANGED <<ch, batch>>
-  /\ UNCHANGED <<done, CallerVars, delivered, dead, nfail, xpc>>
+  /\ UNCHANGED <<done, stop, readers, CallerVars, delivered, dead, nfail, xpc>>
 
 WDrain(br) ==
   /\ wpc = "drain"            \* Len(batch) < B here
@@ -127,7 +135,7 @@ WDrain(br) ==
      \/ /\ br = "empty" /\ ch = <<>>
         /\ wpc' = AfterDrain(batch)
         /\ UNCHANGED <<ch, batch>>
-  /\ UNCHANGED <<done, CallerVars, delivered, dead, nfail, xpc>>
+  /\ UNCHANGED <<done, stop, readers, CallerVars, delivered, dead, nfail, xpc>>
 
 WFlush(ok) ==
   /\ wpc = "flush"
@@ -137,22 +145,26 @@ WFlush(ok) ==
   /\ wpc' = IF ~closing THEN "select"
             ELSE IF "SingleDrain" \in Defects \/ Len(ch) = 0 THEN "exited"
             ELSE "drain"                        \* repaired: for len(c.in) > 0 { drainReady(); flush() }
-  /\ UNCHANGED <<ch, done, CallerVars, closing, xpc>>
+  /\ UNCHANGED <<ch, done, stop, readers, CallerVars, closing, xpc>>
 
 \* ---- close ----------------------------------------------------------------------------
-XClose == /\ xpc = "idle" /\ xpc' = "wait" /\ done' = TRUE
-          /\ UNCHANGED <<ch, CallerVars, Writer>>
+XClose == /\ xpc = "idle" /\ xpc' = "lock" /\ done' = TRUE
+          /\ UNCHANGED <<ch, stop, readers, CallerVars, Writer>>
+\* the exclusive lock is granted once no submit is in flight; the writer is told to stop under it
+XStop == /\ xpc = "lock" /\ (readers = {} \/ "LateSubmit" \in Defects)
+         /\ xpc' = "wait" /\ stop' = TRUE
+         /\ UNCHANGED <<ch, done, readers, CallerVars, Writer>>
 XWait == /\ xpc = "wait" /\ wpc = "exited" /\ xpc' = "closed"
-         /\ UNCHANGED <<ch, done, CallerVars, Writer>>
+         /\ UNCHANGED <<ch, done, stop, readers, CallerVars, Writer>>
 
-Next == \/ \E p \in Callers : \/ Call(p) \/ Cancel(p)
+Next == \/ \E p \in Callers : \/ Call(p) \/ SEnter(p) \/ Cancel(p)
                               \/ \E br \in {"closed", "next"} : SCheck(p, br)
-                              \/ \E br \in {"send", "closed", "next"} : SFast(p, br)
+                              \/ \E br \in {"send", "next"} : SFast(p, br)
                               \/ \E br \in {"send", "ctx", "closed"} : SSlow(p, br)
         \/ \E br \in {"in", "done"} : WSelect(br)
         \/ \E br \in {"recv", "empty"} : WDrain(br)
         \/ \E ok \in BOOLEAN : WFlush(ok)
-        \/ XClose \/ XWait
+        \/ XClose \/ XStop \/ XWait
 
 Spec == Init /\ [][Next]_vars
 FairSpec == Spec /\ WF_vars(Next)
@@ -175,6 +187,12 @@ Conservation == accepted = Ids(ch) \cup Ids(batch) \cup Ids(delivered) \cup Ids(
 NoSilentDrop == (xpc = "closed") => accepted \subseteq (Ids(delivered) \cup Ids(dead))
 \* the stronger form at full quiescence (late submitters have returned too)
 NoSilentDropQ == Quiescent => accepted = Ids(delivered) \cup Ids(dead)
+\* the lock discipline: whoever is past SEnter holds the shared lock, and the writer is not told to stop while
+\* the closer still waits for the lock
+LockDiscipline == /\ \A p \in Callers : (pc[p] \in {"check", "fast", "slow"}) <=> (p \in readers)
+                  /\ (xpc \in {"idle", "lock"}) => ~stop
+\* nothing enters the channel once the writer was told to stop (what the run loop's final drain relies on)
+NoSendAfterStop == [][stop => Len(ch') <= Len(ch)]_vars
 \* the writer's batch never exceeds maxBatch
 BatchBound == Len(batch) <= B /\ Len(ch) <= Cap
 \* liveness: every run becomes quiescent (nobody stays blocked for ever)
